@@ -1,6 +1,7 @@
 package main
 
 import (
+	"bytes"
 	"encoding/json"
 	"flag"
 	"fmt"
@@ -139,7 +140,8 @@ func (rr *reqRun) script(a *fakecql.Attempt) fakecql.Outcome {
 			rr.e.C.ForgetPrepared(a.Node.IP)
 			switch v := rr.intn(10); {
 			case v < 2:
-				rr.prepFail.Store(a.Node.IP, "srverr")
+				// the node answers the re-PREPARE with an error: whatever the error, the request moves on to the next host
+				rr.prepFail.Store(a.Node.IP, []string{"srverr", "invalid", "overloaded", "syntax", "unavail", "funcfail"}[rr.intn(6)])
 			case v < 3 && !rr.noDrops:
 				rr.prepFail.Store(a.Node.IP, "drop")
 			}
@@ -155,6 +157,32 @@ func (rr *reqRun) script(a *fakecql.Attempt) fakecql.Outcome {
 		wts := []primitive.WriteType{primitive.WriteTypeSimple, primitive.WriteTypeBatch, primitive.WriteTypeUnloggedBatch, primitive.WriteTypeCounter,
 			primitive.WriteTypeCas, primitive.WriteTypeView, primitive.WriteTypeCdc}
 		out.WriteType = wts[vn%len(wts)]
+	case fakecql.WriteFail:
+		// every third write failure is that of a conditional write: write type CAS, which the protocol library of the
+		// proxy does not know (the frame cannot be decoded there); it is a write failure all the same
+		if vn%3 == 0 {
+			var b bytes.Buffer
+			_ = primitive.WriteInt(0x1500, &b)
+			_ = primitive.WriteString("wfail "+a.Token, &b)
+			_ = primitive.WriteShort(uint16(primitive.ConsistencyLevelQuorum), &b)
+			_ = primitive.WriteInt(1, &b)
+			_ = primitive.WriteInt(2, &b)
+			if a.Frame.Header.Version >= primitive.ProtocolVersion5 {
+				_ = primitive.WriteInt(0, &b) // reason map
+			} else {
+				_ = primitive.WriteInt(1, &b) // number of failures
+			}
+			_ = primitive.WriteString("CAS", &b)
+			out.RawErrorBody = b.Bytes()
+		}
+	case fakecql.FuncFail:
+		// ... and every third error of the classes nobody retries carries a code the library has never heard of
+		if vn%3 == 0 {
+			var b bytes.Buffer
+			_ = primitive.WriteInt(0x1600, &b)
+			_ = primitive.WriteString("funcfail "+a.Token, &b)
+			out.RawErrorBody = b.Bytes()
+		}
 	case fakecql.RTSame:
 		rb := [][2]int32{{2, 2}, {3, 2}, {1, 1}}[vn%3]
 		out.Received, out.BlockFor = rb[0], rb[1]
